@@ -431,6 +431,7 @@ fn gen_tl(r: &mut Rng, n: usize, out: &mut dyn Write) {
         for s in ["S8", "Q5", "R4"] {
             writeln!(out, "{}", shape_line(s)).unwrap();
         }
+        if exact { writeln!(out, "# exactcfg").unwrap(); }
         writeln!(out, "{}", tl.line(0)).unwrap();
         writeln!(out, "meta 0").unwrap();
         {
